@@ -24,6 +24,15 @@ PROGRAMS = [
     # a failure 9 call levels deep, raised on its own line
     "".join("def f%d(n):\n    return f%d(n)\n" % (i, i + 1) for i in range(9)) + "def f9(n):\n    k = n\n    return k / 0\nf0(1)\n",
     "def rec(n):\n    if n == 0:\n        return [][0]\n    return rec(n - 1)\nrec(12)\n",
+    # raised INSIDE a pure-Python library function the student called: the student's line is the calling line
+    "import random\nx = 1\ny = random.choice([])\n",
+    "import json\n\njson.loads('{')\n",
+    # raised on a student line that is reached THROUGH library frames
+    "from contextlib import contextmanager\n@contextmanager\ndef cm():\n    yield 1\n    raise ValueError('late')\nwith cm() as c:\n    d = c\n",
+    "import heapq\ndef key(v):\n    return 1 / v\nheapq.nsmallest(1, [1, 0], key=key)\n",
+    # a file that does not compile: the line the SyntaxError names
+    "x = 1\ny = (\n",
+    "def f(a):\n    return a\n  z = 3\n",
 ]
 
 
@@ -33,6 +42,8 @@ def _cpython_line(code):
     except Exception as e:
         tb = e.__traceback__
         line = None
+        if isinstance(e, SyntaxError) and e.filename == "answer.py":
+            line = e.lineno
         while tb is not None:
             if tb.tb_frame.f_code.co_filename == "answer.py":
                 line = tb.tb_lineno
@@ -43,7 +54,8 @@ def _cpython_line(code):
 
 def locate(k0: bool, k1: bool, k2: bool, k3: bool, as_call: bool) -> bool:
     """
-    run() on a failing program (menu of 10, incl. failures 9 and 13 call levels deep: plain failure, failure in a called function, inside try/finally, re-raised
+    run() on a failing program (menu of 16, incl. failures 9 and 13 call levels deep, failures raised inside or through
+    library frames, files that do not compile: plain failure, failure in a called function, inside try/finally, re-raised
     from an except block, in a with block, in a loop): one runtime feedback whose location.line is the line CPython's
     traceback gives for the innermost student frame; also when the failing code is reached through call().
 
@@ -127,3 +139,112 @@ def real_programs(k0: bool, k1: bool, k2: bool, k3: bool, evaluate: bool) -> boo
             sys.stdout = so
         runtime = [f for f in r.feedback + r.ignored_feedback if f.category == "runtime"]
         return sb.exception is not None and len(runtime) == 1 and bool(runtime[0])
+
+
+ODD_EXCEPTIONS = [
+    "from dataclasses import dataclass\n@dataclass(frozen=True)\nclass E(Exception):\n    code: int\nraise E(3)\n",
+    "class E(Exception):\n    def __setattr__(self, name, value):\n        raise TypeError('read only')\nraise E('x')\n",
+    "class MyErr(KeyError):\n    pass\nraise MyErr('a')\n",
+    "class E(Exception):\n    def __init__(self, a, b):\n        super().__init__(a)\n        self.b = b\nraise E(1, 2)\n",
+    "raise ValueError({'k': [1, 2]}, ('t',), None)\n",
+    "class E(Exception):\n    __slots__ = ('extra',)\nraise E('s')\n",
+    "class Meta(type):\n    pass\nclass E(Exception, metaclass=Meta):\n    pass\nraise E()\n",
+    "def f():\n    raise LookupError\nf()\n",
+]
+
+
+def odd_exceptions(k0: bool, k1: bool, k2: bool, as_call: bool) -> bool:
+    """
+    Real exec of programs raising UNUSUAL exception objects - a frozen dataclass, one whose __setattr__ refuses, a KeyError
+    subclass, a two-argument constructor, container arguments, __slots__, a metaclass, a bare class: run() (or call() of
+    a wrapper function) returns normally, the failure is the sandbox's exception, exactly one runtime-category feedback is
+    attached and it is located on the raising line.
+
+    pre: True
+    post: _
+    """
+    if tick():
+        return True
+    k = bits(k0, k1, k2)
+    as_call = True if as_call else False
+    with NoTracing():
+        code = ODD_EXCEPTIONS[k]
+        name, line = _cpython_line(code)
+        r = Report()
+        so = sys.stdout
+        try:
+            if as_call:
+                wrapped = "def main():\n" + "".join("    " + ln + "\n" for ln in code.splitlines()) + "\n"
+                contextualize_report(wrapped, report=r)
+                sb = Sandbox(report=r)
+                sb.result_proxy_class = None
+                sb.run()
+                sb.call("main")
+                line = line + 1
+            else:
+                contextualize_report(code, report=r)
+                sb = Sandbox(report=r)
+                sb.run()
+        except Exception:
+            return False
+        finally:
+            sys.stdout = so
+        runtime = [f for f in r.feedback if f.category == "runtime"]
+        return (len(runtime) == 1 and sb.exception is not None and runtime[0].location is not None
+                and runtime[0].location.line == line)
+
+
+HELPERS = ["y = 1 / 0\n", "y = 1\n", "import missing_module_xyz\n", "def g():\n    return [][0]\ny = g()\n"]
+
+
+def multi_file(h0: bool, h1: bool, lazy: bool, guarded_first: bool, times2: bool) -> bool:
+    """
+    A submission of TWO files: answer.py imports helper.py, whose import fails (or not: helper from a menu of 4). Histories:
+    run() once or twice; the import at module level or inside a function reached through call(); optionally a first,
+    guarded import (try/except) followed by an unguarded one in the same run. EVERY execution that reaches a failing
+    import ends with the failure - the exception class CPython itself raises for that helper - as the sandbox's exception and
+    exactly one new runtime feedback, also the second time.
+
+    pre: True
+    post: _
+    """
+    if tick():
+        return True
+    helper = HELPERS[bits(h0, h1)]
+    lazy, guarded_first, times2 = (True if lazy else False), (True if guarded_first else False), (True if times2 else False)
+    with NoTracing():
+        from pedal.core.submission import Submission
+        guard = "try:\n    import helper\nexcept Exception:\n    pass\n" if guarded_first else ""
+        if lazy:
+            main = "def use():\n" + "".join("    " + ln + "\n" for ln in (guard + "import helper\nreturn helper.y\n").splitlines())
+        else:
+            main = guard + "import helper\nz = helper.y\n"
+        try:
+            exec(compile(helper, "helper.py", "exec"), {"__name__": "helper"})
+            helper_fails, expected = False, None
+        except Exception as e:
+            helper_fails, expected = True, type(e).__name__       # what CPython itself raises for this helper
+        r = Report()
+        r.contextualize(Submission({"answer.py": main, "helper.py": helper}, "answer.py", main))
+        sb = Sandbox(report=r)
+        sb.result_proxy_class = None
+        so = sys.stdout
+        try:
+            for i in range(2 if times2 else 1):
+                before = len([f for f in r.feedback if f.category == "runtime"])
+                sb.run()
+                if lazy:
+                    if sb.exception is not None:
+                        return False            # defining the function cannot fail
+                    sb.call("use")
+                after = len([f for f in r.feedback if f.category == "runtime"])
+                if helper_fails:
+                    if sb.exception is None or after != before + 1 or type(sb.exception).__name__ != expected:
+                        return False
+                elif sb.exception is not None or after != before:
+                    return False
+        except Exception:
+            return False
+        finally:
+            sys.stdout = so
+        return True
